@@ -129,6 +129,17 @@ def check(ck):
                "`if thread_pool is None`", "the default pool is created under %s" % [dump(b.test) for b in gd], q.loc(fi, mk[0][0]))
     pool_var = mk[0][0].ast.targets[0].id if isinstance(mk[0][0].ast, ast.Assign) and isinstance(mk[0][0].ast.targets[0], ast.Name) else None
     st = [n for n in gi.live_nodes() for c in node_calls(n) if call_name(c) == "start" and dump(c.func.value) == pool_var and mk[0][0].id in di[n.id]]
+    if not st:
+        # a start() of the pool variable elsewhere in the constructor (e.g. once the socket is bound): unconditional is as good -
+        # start() of a running pool does nothing -; under a condition this rule cannot evaluate it is refused, not reported
+        later = [n for n in gi.live_nodes() for c in node_calls(n) if call_name(c) == "start" and isinstance(c.func, ast.Attribute) and
+                 dump(c.func.value) == pool_var]
+        for n_ in later:
+            if not q.guards_of(gi, n_, di) and gi.return_exit.id not in reachable_avoiding(gi, gi.entry.id, set([n_.id]), lambda l: l != "exc"):
+                st = [n_]
+        if not st and later:
+            raise AnalysisError("the request pool of PooledJSONRPCServer is started under a condition (`%s`): not modelled" %
+                                " and ".join(dump(t_) for (t_, _p) in q.guards_of(gi, later[0], di))[:80])
     ck.require(bool(st), "C12.5", "%s: default pool started" % q.fn(fi), "<pool>.start() after creation", "the default pool is not started", q.loc(fi, mk[0][0]))
     okst = True
     for s_ in stores:
